@@ -46,9 +46,11 @@ def run_item(item, survey=False):
     I.solver.add(composition(vs, a, b))
     rng = random.Random(N * 1009 + a * 31 + b)
     known = known_for(a, b, N)
+    prelude = std_prelude(N, a, b)
+    run_prelude(prelude)
 
     def cex(m):
-        return dict(seq=seq_of_model(m, vs))
+        return dict(seq=seq_of_model(m, vs), prelude=prelude)
 
     def thunk():
         k = I.call(I.call(SequenceParameters, [s], {}).get_kappa, [], {})
@@ -113,6 +115,7 @@ def run_item(item, survey=False):
 
 def replay(cex):
     from localcider.sequenceParameters import SequenceParameters
+    run_prelude(cex.get("prelude"))
     seq = cex["seq"]
     try:
         k = SequenceParameters(seq).get_kappa()
